@@ -1001,6 +1001,8 @@ class ExperimentTopology(Topology):
         """
         Prune this network service and its interfaces
         """
+        # look the service up afresh: some of its interfaces may already be gone with a pruned node
+        self._disconnect_interfaces(self._get_ns_by_id(ns.node_id).interface_list)
         self.graph_model.remove_ns_with_cps_and_links(node_id=ns.node_id)
 
     def _prune_components(self, c: Component, parent: Node):
@@ -1015,6 +1017,7 @@ class ExperimentTopology(Topology):
         """
         Prune this interface
         """
+        self._disconnect_interfaces([Interface(name=i.name, node_id=i.node_id, topo=self)])
         self.graph_model.remove_cp_and_links(node_id=i.node_id)
 
     def prune(self, reservation_state):
